@@ -143,6 +143,7 @@ let () =
     | _ -> failwith "sync");
   register "dirlink" (fun _ -> obs "dirlink ok");
   register "rawduring" (fun _ -> obs "rawduring boundary");
+  register "abortheld" (fun _ -> obs "abortheld released");
   register "syncclosed" (fun tk -> match tk with
     | [_; name] -> with_file "syncclosed" name (fun _ -> obs "syncclosed err")
     | _ -> failwith "syncclosed");
